@@ -693,6 +693,9 @@ package eventbus
 //@        r.upcasters[fromType][len(r.upcasters[fromType]) - 1].ToType == toType &&
 //@        r.upcasters[fromType][len(r.upcasters[fromType]) - 1].Upcast == upcast &&
 //@        (forall i int :: {r.upcasters[fromType][i]} 0 <= i && i < len(acq(r.upcasters[fromType])) ==> r.upcasters[fromType][i] == acq(r.upcasters[fromType][i]))
+//@   at unlock:upcastRegistry.mu assert [C16.register.others] err == nil ==>
+//@        (forall t string, i int :: {r.upcasters[t][i]} t != fromType && 0 <= i && i < len(acq(r.upcasters[t])) ==>
+//@            len(r.upcasters[t]) == len(acq(r.upcasters[t])) && r.upcasters[t][i] == acq(r.upcasters[t][i]))
 //@   at unlock:upcastRegistry.mu assert [C16.register.frame] err != nil ==>
 //@        (forall t string :: len(r.upcasters[t]) == len(acq(r.upcasters[t])))
 
